@@ -252,7 +252,7 @@ def twin_expired_deleted(res, tier, seed, t_end):
 
 
 def run_C07(res, tier, seed, t_end, bad):
-    matrix_pre(res, 'C07', tier, seed, t_end, [('ttl-rules', Mx.ttl_cases, 1100)])
+    matrix_pre(res, 'C07', tier, seed, t_end, [('ttl-rules', Mx.ttl_cases, 3000)])
     if res.findings:
         return
     Cp.run_campaign(res, 'C07', plan_ttl(60), budget(tier, 50, 800), seed, None, (), deadline=t_end)
